@@ -51,6 +51,11 @@ pub fn jbytes(out: &mut String, d: &[u8]) {
     out.push(']');
 }
 
+pub fn path_json(o: &Value) -> String {
+    let p: Vec<String> = o["path"].as_array().map(|a| a.iter().filter_map(|x| x.as_u64()).map(|x| x.to_string()).collect()).unwrap_or_default();
+    format!("[{}]", p.join(","))
+}
+
 pub fn bytes_of(v: &Value) -> Vec<u8> {
     v.as_array().map(|a| a.iter().map(|x| x.as_u64().unwrap_or(0) as u8).collect()).unwrap_or_default()
 }
@@ -84,14 +89,8 @@ forward_buf!(DequeLeaf, |s| &s.0, |m| &mut m.0);
 impl Chunked {
     fn skip_empty(&mut self) {
         while self.cur < self.chunks.len() && self.pos >= self.chunks[self.cur].len() {
-            // an honest Buf never returns an empty chunk while bytes remain, but empty chunks
-            // *between* data are allowed: step over them lazily only when data follows
-            if self.chunks[self.cur + 1..].iter().any(|c| !c.is_empty()) || self.chunks[self.cur].is_empty() || self.pos >= self.chunks[self.cur].len() {
-                self.cur += 1;
-                self.pos = 0;
-            } else {
-                break;
-            }
+            self.cur += 1;
+            self.pos = 0;
         }
     }
 }
@@ -108,16 +107,11 @@ impl Buf for Chunked {
         n
     }
     fn chunk(&self) -> &[u8] {
-        let mut i = self.cur;
-        let mut p = self.pos;
-        while i < self.chunks.len() {
-            if p < self.chunks[i].len() {
-                return &self.chunks[i][p..];
-            }
-            i += 1;
-            p = 0;
+        if self.cur < self.chunks.len() {
+            &self.chunks[self.cur][self.pos..]
+        } else {
+            &[]
         }
-        &[]
     }
     fn advance(&mut self, mut cnt: usize) {
         assert!(cnt <= self.remaining(), "Chunked: advance past end");
@@ -135,7 +129,6 @@ impl Buf for Chunked {
         self.skip_empty();
     }
 }
-
 fn leaf_info(out: &mut String, ty: &str, d: &[u8]) {
     let _ = write!(out, "{{\"k\":\"leaf\",\"ty\":\"{}\",\"limit\":0,\"d\":", ty);
     jbytes(out, d);
@@ -327,7 +320,13 @@ pub fn build(v: &Value) -> Box<dyn Node> {
     match v["k"].as_str().unwrap_or("") {
         "slice" => Box::new(SliceLeaf(Box::leak(bytes_of(&v["d"]).into_boxed_slice()))),
         "bytes" => Box::new(BytesLeaf(Bytes::from(bytes_of(&v["d"])))),
-        "bytesmut" => Box::new(BytesMutLeaf(BytesMut::from(&bytes_of(&v["d"])[..]))),
+        "bytesmut" => {
+            // with spare capacity behind the bytes (len < capacity)
+            let d = bytes_of(&v["d"]);
+            let mut m = BytesMut::with_capacity(d.len() + 4);
+            m.extend_from_slice(&d);
+            Box::new(BytesMutLeaf(m))
+        }
         "cursor" => {
             let mut c = Cursor::new(bytes_of(&v["d"]));
             c.set_position(v["pos"].as_u64().unwrap_or(0));
@@ -503,7 +502,7 @@ fn run_buf_program(p: &Value, out: &mut String) {
             }
         }));
         let outk = if r.is_ok() { "ok" } else { "panic" };
-        let _ = write!(out, "{{\"i\":{},\"op\":\"{}\",\"m\":\"{}\",\"n\":{},\"out\":\"{}\",\"res\":{{\"k\":\"{}\",\"n\":{},\"req\":{},\"avail\":{},\"flag\":{},\"v\":", i + 1, name, m, enc(n), outk, res.k, res.n, res.req, res.avail, res.flag);
+        let _ = write!(out, "{{\"i\":{},\"op\":\"{}\",\"path\":{},\"m\":\"{}\",\"n\":{},\"out\":\"{}\",\"res\":{{\"k\":\"{}\",\"n\":{},\"req\":{},\"avail\":{},\"flag\":{},\"v\":", i + 1, name, path_json(o), m, enc(n), outk, res.k, res.n, res.req, res.avail, res.flag);
         jbytes(out, &res.v);
         out.push_str(",\"vv\":[");
         for (j, s) in res.vv.iter().enumerate() {
